@@ -1,8 +1,222 @@
 import Pose.Wire
-/-! Driver ops for C06. -/
+import Pose.Model.Batch
+import Pose.Gen.Handled
+/-! Driver ops for C06: they *run the model's own definitions* (`binop`, `addOp`, `unopFlat`, `IMap.steps`,
+`catFlat`, `overwriteFlat`, `gatherFlat`, `scatterFlat`, `torchFunction`, `Retain.retain`) on tagged items
+(an item is tagged with its flat index) and print shapes / tags.  All tokens are naturals or short words.
+Lists travel as `n x₁ … xₙ`. -/
 namespace PP.Driver
-open PP Wire
+open PP Wire Batch
 
-def opsC06 : List (String × Handler) := []
+/-- read `n x₁ … xₙ` from the front -/
+def takeList (ts : List String) : Except String (List Nat × List String) := do
+  match ts with
+  | [] => throw "arity"
+  | n :: rest =>
+    let n ← nat n
+    let (xs, rest') ← take n rest
+    let xs ← nats xs
+    return (xs, rest')
+
+def tagT (s : Shape) : T Nat := ⟨s, fun k => k⟩
+
+def fmtShape (s : Shape) : String := s!"S {s.length}" ++ String.join (s.map fun d => s!" {d}")
+
+def fmtOutPairs (r : Out (Nat × Nat)) : String :=
+  let n := numel r.shape
+  fmtShape r.shape ++ s!" L {r.last} N {n}" ++
+    String.join ((List.range n).map fun k => let p := r.data k; s!" {p.1} {p.2}")
+
+def fmtPairs (out : Shape) (f : Nat → Nat × Nat) : String :=
+  let n := numel out
+  fmtShape out ++ s!" N {n}" ++ String.join ((List.range n).map fun k => let p := f k; s!" {p.1} {p.2}")
+
+def fmtSrc (out : Shape) (f : Nat → Nat) : String :=
+  let n := numel out
+  fmtShape out ++ s!" N {n}" ++ String.join ((List.range n).map fun k => s!" {f k}")
+
+partial def parseSteps : List String → Except String (List Step)
+  | [] => return []
+  | "R" :: rest => do let (s, r) ← takeList rest; return Step.reshape s :: (← parseSteps r)
+  | "P" :: rest => do let (p, r) ← takeList rest; return Step.permute p :: (← parseSteps r)
+  | "I" :: d :: rest => do
+      let d ← nat d; let (ix, r) ← takeList rest; return Step.index d ix :: (← parseSteps r)
+  | "E" :: rest => do let (s, r) ← takeList rest; return Step.expand s :: (← parseSteps r)
+  | "T" :: rest => do let (s, r) ← takeList rest; return Step.repeat_ s :: (← parseSteps r)
+  | t :: _ => throw s!"bad-step:{t}"
+
+partial def takeShapes : Nat → List String → Except String (List Shape × List String)
+  | 0, ts => return ([], ts)
+  | m + 1, ts => do
+    let (s, r) ← takeList ts
+    let (ss, r') ← takeShapes m r
+    return (s :: ss, r')
+
+def parseLeaf (s : String) : Except String Leaf :=
+  if s == "T" then .ok Leaf.tensor
+  else if s == "O" then .ok Leaf.other
+  else if s.startsWith "L" then
+    match (s.drop 1).toNat? with
+    | some k => .ok (Leaf.lie k)
+    | none => .error s!"bad-leaf:{s}"
+  else .error s!"bad-leaf:{s}"
+
+def fmtLeaf : Leaf → String
+  | .tensor => "T"
+  | .other => "O"
+  | .lie k => s!"L{k}"
+
+open Retain in
+/-- body in prefix form: `r` ret, `x` raise, `c<slot>` call then continuation, `n` nest: inner then continuation -/
+partial def parseBody : List String → Except String (Retain.Body × List String)
+  | "r" :: rest => return (.ret, rest)
+  | "x" :: rest => return (.raise, rest)
+  | "n" :: rest => do
+    let (inner, r1) ← parseBody rest
+    let (k, r2) ← parseBody r1
+    return (.nest inner k, r2)
+  | t :: rest =>
+    if t.startsWith "c" then
+      match (t.drop 1).toNat? with
+      | some s => do let (k, r) ← parseBody rest; return (.call s k, r)
+      | none => throw s!"bad-body:{t}"
+    else throw s!"bad-body:{t}"
+  | [] => throw "arity"
+
+open Retain in
+def fmtFn : Retain.Fn → String
+  | .orig s => s!"o{s}"
+  | .wrap f => "w" ++ fmtFn f
+
+def sepBar (ts : List String) : List String × List String :=
+  (ts.takeWhile (· ≠ "|"), (ts.dropWhile (· ≠ "|")).drop 1)
+
+def opsC06 : List (String × Handler) := [
+  -- c06.bcast dOut dDecl  n sx…  n sy…     → binop on tagged items
+  ("c06.bcast", fun ts => do
+      match ts with
+      | dOut :: dDecl :: rest =>
+        let dOut ← nat dOut; let dDecl ← nat dDecl
+        let (sx, r1) ← takeList rest
+        let (sy, _) ← takeList r1
+        match binop (fun a b => (a, b)) dOut dDecl (tagT sx) (tagT sy) with
+        | none => throw "raise"
+        | some r => return fmtOutPairs r
+      | _ => throw "arity"),
+  -- c06.add d  n sx…  n sa…   → addOp on tagged items; pair = (tag of a, tag of x)
+  ("c06.add", fun ts => do
+      match ts with
+      | d :: rest =>
+        let d ← nat d
+        let (sx, r1) ← takeList rest
+        let (sa, _) ← takeList r1
+        -- items of x are (0, tag); the retraction records which `a` item met which `x` item
+        let x : T (Nat × Nat) := ⟨sx, fun k => (0, k)⟩
+        match addOp (fun a (xi : Nat × Nat) => (a, xi.2)) d x (tagT sa) with
+        | none => throw "raise"
+        | some r => return fmtOutPairs r
+      | _ => throw "arity"),
+  -- c06.unflat dOut dDecl n sx…   → unopFlat
+  ("c06.unflat", fun ts => do
+      match ts with
+      | dOut :: dDecl :: rest =>
+        let dOut ← nat dOut; let dDecl ← nat dDecl
+        let (sx, _) ← takeList rest
+        match unopFlat (fun a => (a, a)) dOut dDecl (tagT sx) with
+        | none => throw "raise"
+        | some r => return fmtOutPairs r
+      | _ => throw "arity"),
+  -- c06.bshape n a… n b…   → broadcastShapes only
+  ("c06.bshape", fun ts => do
+      let (a, r1) ← takeList ts
+      let (b, _) ← takeList r1
+      match broadcastShapes a b with
+      | none => throw "raise"
+      | some o => return fmtShape o),
+  -- c06.steps n s… <steps>   → pipeline on one input
+  ("c06.steps", fun ts => do
+      let (s, r1) ← takeList ts
+      let sts ← parseSteps r1
+      match (IMap.id s).steps sts with
+      | none => throw "raise"
+      | some m => return fmtSrc m.out m.src),
+  -- c06.cat dim m (n s…)*m
+  ("c06.cat", fun ts => do
+      match ts with
+      | dim :: m :: rest =>
+        let dim ← nat dim; let m ← nat m
+        let (ss, _) ← takeShapes m rest
+        match catFlat ss dim with
+        | none => throw "raise"
+        | some (out, f) => return fmtPairs out f
+      | _ => throw "arity"),
+  -- c06.overwrite dim n s… n idx…
+  ("c06.overwrite", fun ts => do
+      match ts with
+      | dim :: rest =>
+        let dim ← nat dim
+        let (s, r1) ← takeList rest
+        let (idx, _) ← takeList r1
+        match overwriteFlat s dim idx with
+        | none => throw "raise"
+        | some (out, f) => return fmtPairs out f
+      | _ => throw "arity"),
+  -- c06.gather dim n s… n si… n index…
+  ("c06.gather", fun ts => do
+      match ts with
+      | dim :: rest =>
+        let dim ← nat dim
+        let (s, r1) ← takeList rest
+        let (si, r2) ← takeList r1
+        let (ix, _) ← takeList r2
+        match gatherFlat s si dim (fun k => ix.getD k 0) with
+        | none => throw "raise"
+        | some (out, f) => return fmtSrc out f
+      | _ => throw "arity"),
+  -- c06.scatter dim n s… n si… n ssrc… n index…
+  ("c06.scatter", fun ts => do
+      match ts with
+      | dim :: rest =>
+        let dim ← nat dim
+        let (s, r1) ← takeList rest
+        let (si, r2) ← takeList r1
+        let (ssrc, r3) ← takeList r2
+        let (ix, _) ← takeList r3
+        return fmtPairs s (scatterFlat s si ssrc dim (fun k => ix.getD k 0))
+      | _ => throw "arity"),
+  -- c06.tf name <arg leaves> | <result leaves>      with the regenerated list
+  ("c06.tf", fun ts => do
+      match ts with
+      | name :: rest =>
+        let (a, r) := sepBar rest
+        let args ← a.mapM parseLeaf
+        let res ← r.mapM parseLeaf
+        match torchFunction PP.Gen.handled name args res with
+        | none => throw "indexerror"
+        | some out => return " ".intercalate (out.map fmtLeaf)
+      | _ => throw "arity"),
+  -- c06.handled     → the list compiled into this binary
+  ("c06.handled", fun _ => return " ".intercalate PP.Gen.handled),
+  -- c06.sem name
+  ("c06.sem", fun ts => do
+      match ts with
+      | [name] => match semOf name with
+        | some s => return (reprStr s)
+        | none => throw "no-semantics"
+      | _ => throw "arity"),
+  -- c06.retain o0 o1 o2 failAt(-1 = none) <body>    → slots 0..3, outcome, call log
+  ("c06.retain", fun ts => do
+      match ts with
+      | o0 :: o1 :: o2 :: fa :: rest =>
+        let ord ← nats [o0, o1, o2]
+        let fa ← int fa
+        let (body, _) ← parseBody rest
+        let t0 : Retain.Table := fun q => Retain.Fn.orig q
+        let r := Retain.retain ord t0 body (if fa < 0 then none else some fa.toNat)
+        let slots := " ".intercalate ((List.range 4).map fun q => fmtFn (r.1 q))
+        let oc := match r.2.1 with | .ok => "ok" | .raised => "raised"
+        return slots ++ " " ++ oc ++ " " ++ " ".intercalate (r.2.2.map fmtFn)
+      | _ => throw "arity")
+]
 
 end PP.Driver
